@@ -13,6 +13,7 @@ Python equivalents of various excel functions
 import math
 import sys
 from decimal import Decimal, ROUND_DOWN, ROUND_HALF_UP, ROUND_UP
+from fractions import Fraction
 
 import numpy as np
 
@@ -57,6 +58,17 @@ def _numerics(*args, keep_bools=False, to_number=lambda x: x):
         return tuple(x for x in args if isinstance(x, (int, float)))
 
 
+def _exact(number):
+    # the decimal value a number shows (as in round_): 0.7 is 7/10, so that
+    # 0.7 / 0.1 is 7 and not the float quotient 6.999999999999999
+    return Fraction(repr(number))
+
+
+def _inexact(fraction):
+    # back to an int if integral, otherwise to the nearest float
+    return coerce_to_number(float(fraction))
+
+
 @excel_math_func
 def abs_(value1):
     # Excel reference: https://support.microsoft.com/en-us/office/
@@ -83,10 +95,11 @@ def ceiling(number, significance):
     if number == 0 or significance == 0:
         return 0
 
+    number, significance = _exact(number), _exact(significance)
     if number < 0 < significance:
-        return significance * int(number / significance)
+        return _inexact(significance * int(number / significance))
     else:
-        return significance * math.ceil(number / significance)
+        return _inexact(significance * math.ceil(number / significance))
 
 
 @excel_math_func
@@ -96,10 +109,10 @@ def ceiling_math(number, significance=1, mode=0):
     if significance == 0:
         return 0
 
-    significance = abs(significance)
+    number, significance = _exact(number), abs(_exact(significance))
     if mode and number < 0:
         significance = -significance
-    return significance * math.ceil(number / significance)
+    return _inexact(significance * math.ceil(number / significance))
 
 
 @excel_math_func
@@ -109,8 +122,8 @@ def ceiling_precise(number, significance=1):
     if significance == 0:
         return 0
 
-    significance = abs(significance)
-    return significance * math.ceil(number / significance)
+    number, significance = _exact(number), abs(_exact(significance))
+    return _inexact(significance * math.ceil(number / significance))
 
 
 def conditional_format_ids(*args):
@@ -169,7 +182,8 @@ def floor(number, significance):
     if significance == 0:
         return DIV0
 
-    return significance * math.floor(number / significance)
+    number, significance = _exact(number), _exact(significance)
+    return _inexact(significance * math.floor(number / significance))
 
 
 @excel_math_func
@@ -179,10 +193,10 @@ def floor_math(number, significance=1, mode=0):
     if significance == 0:
         return 0
 
-    significance = abs(significance)
+    number, significance = _exact(number), abs(_exact(significance))
     if mode and number < 0:
         significance = -significance
-    return significance * math.floor(number / significance)
+    return _inexact(significance * math.floor(number / significance))
 
 
 @excel_math_func
@@ -192,8 +206,8 @@ def floor_precise(number, significance=1):
     if significance == 0:
         return 0
 
-    significance = abs(significance)
-    return significance * math.floor(number / significance)
+    number, significance = _exact(number), abs(_exact(significance))
+    return _inexact(significance * math.floor(number / significance))
 
 
 @excel_math_func
